@@ -17,8 +17,19 @@ echo "prepared /tmp/seedtools"
 # ideas already used per property (from the seeded/ metadata), for later rounds
 /venv/bin/python - <<'PY'
 import json, os, glob
-for p in sorted(glob.glob('/verif/seeded/*/meta.json')):
+R1 = {'C01':'top-level-Manifest exemption in directory verification compares only the basename','C02':'assert_directory_verifies loads with verify_manifests=False','C03':"de-duplication queues the kept entry's Manifest only if new hash names were added",'C04':'armor-header preamble ends only at an exactly empty line','C05':'status parsing stops at the first VALIDSIG line','C06':'os.walk onerror swallows ENOTDIR/ENOENT below the top','C07':'keep-going all(list(...)) turned into a lazy all(...)','C10':'string-prefix instead of component-prefix in the de-duplication scope','C11':'int(st_mtime) <= int(last_mtime) in the mtime skip rule','C12':'ManifestFile.dump no longer rebinds the sorted entries','C13':'save_manifest returns characters, not bytes','C14':'"top-level" = any Manifest in the top directory','C15':'IGNORE prefix test via os.path.commonpath','C16':'three walkers folded into one that records ancestors only for real directories','C17':'streaming loop stops at the first block shorter than the buffer','C18':'ManifestEntryTIMESTAMP.__eq__ touches other.ts before comparing tags','C19':'profile defaults applied with `x or default`','C20':'gen_fast_manifest computes the AUX prefix once per directory'}
+ideas = dict((k, [v]) for k, v in R1.items())
+def rnd(p):
+    b = os.path.basename(os.path.dirname(p))
+    return int(b.split('-r')[1]) if '-r' in b else 1
+for p in sorted(glob.glob('/verif/seeded/*/meta.json'), key=rnd):
     d = json.load(open(p)); pid = d['property']
-    with open('/tmp/seedtools/avoid-%s.txt' % pid, 'a') as f:
-        f.write('- %s\n' % (d.get('change') or os.path.basename(os.path.dirname(p))))
+    c = d.get('change')
+    if c and c != '?' and c not in ideas.setdefault(pid, []):
+        ideas[pid].append(c)
+for pid, l in ideas.items():
+    with open('/tmp/seedtools/avoid-%s.txt' % pid, 'w') as f:
+        f.write('Ideas already used by earlier developers for %s - do NOT repeat any of them (nor a close variant);\nfind a different mechanism in a different place, preferably a different function or file:\n\n' % pid)
+        for i, x in enumerate(l, 1):
+            f.write('%d. %s\n' % (i, x))
 PY
